@@ -18,7 +18,12 @@ def _with_state_lock(func):
 
     async def wrapper(obj: 'TransferState', *args, **kwargs):
         async with obj.transfer._state_lock:
-            result = await func(*args, **kwargs)
+            # The state of the transfer could have changed while waiting for
+            # the lock: dispatch on the current state of the transfer instead
+            # of on the state object the caller obtained earlier
+            state = obj.transfer.state
+            method = getattr(type(state), func.__name__)
+            result = await method(state, *args, **kwargs)
         return result
 
     return wrapper
